@@ -25,8 +25,16 @@ def extract_border_cycle(mesh : SurfaceMesh, starting_point : int = None):
     if not mesh.is_vertex_on_border(starting_point) : 
         raise Exception("Starting point (vertex {}) is not on mesh border".format(starting_point))
 
+    def next_on_border(u):
+        # the border edge leaving u is the only edge (u,v) without a face on its left. This does not
+        # depend on the order of the neighborhood (config.sort_neighborhoods) and never follows an
+        # interior edge between two border vertices
+        for v in mesh.connectivity.vertex_to_vertices(u):
+            if mesh.connectivity.direct_face(u,v) is None:
+                return v
+
     vborder, eborder = [starting_point], []
-    point1, point2 = starting_point, mesh.connectivity.vertex_to_vertices(starting_point)[0]
+    point1, point2 = starting_point, next_on_border(starting_point)
     nvisited = 0
     MAX_VISITED = len(mesh.vertices)
         
@@ -34,10 +42,7 @@ def extract_border_cycle(mesh : SurfaceMesh, starting_point : int = None):
         # while we have not come back to origin
         vborder.append(point2)
         eborder.append(mesh.connectivity.edge_id(point1, point2))
-        for v in mesh.connectivity.vertex_to_vertices(point2):
-            if mesh.is_vertex_on_border(v) and v!=point1:
-                point1, point2 = point2, v
-                break
+        point1, point2 = point2, next_on_border(point2)
         nvisited += 1
     eborder.append(mesh.connectivity.edge_id(point1, point2)) # add last edge to close the cycle
     return vborder, eborder
